@@ -23,6 +23,15 @@ CHECKS = {
                  "findings F17 F20 F22 F26 are excluded by extracted classifiers."),
         "design_ref": "DESIGN.md section 7 C01",
     },
+    "C02": {
+        "text": ("Proved: for the plain quoters (QUOTER, PATH_QUOTER, QUERY_PART_QUOTER, FRAGMENT_QUOTER) and every string the canonical text "
+                 "stands for exactly the UTF-8 bytes of the supplied text ('+' as space under qs), and decoding it gives the text back (both "
+                 "backends). PARTIAL: for the requoters (constructor) token preservation and the escaped-vs-literal status of / & = + ; "
+                 "with segment and pair boundaries are the extracted predicate c02_pred, checked on the implementation (component texts "
+                 "exhaustive to length 2/3 over 25 class symbols in every component, builders/modifiers over 60 texts, untargeted components "
+                 "of an all-escaped base) and the model; the decode tables are proved by sweep (C04). Known finding F1b."),
+        "design_ref": "DESIGN.md section 7 C02",
+    },
     "C03": {
         "text": ("Proved: requoting is idempotent for the four requoters (all strings), dot-segment removal is idempotent. The URL-level "
                  "fixed point str(URL(str(u))) = str(u) with identical components is NOT proved (partial): it is checked on the "
@@ -43,6 +52,16 @@ CHECKS = {
                  "look-ahead residue (F1b) is a refuted witness. The tie to both real backends is a three-way differential run incl. "
                  "outputs crossing k*8192."),
         "design_ref": "DESIGN.md section 7 C05",
+    },
+    "C06": {
+        "text": ("Proved: unquote(quote(t)) = t for (QUOTER,UNQUOTER), (PATH_QUOTER,PATH_UNQUOTER), (FRAGMENT_QUOTER,UNQUOTER), both backends, "
+                 "every surrogate-free string; the strict UTF-8 classifier accepts exactly the encoder's output for all scalar values "
+                 "(symbolic proof); the compiled unquoter's unchanged shortcut is sound; the decoded accessors are definitionally the "
+                 "unquoters applied to the raw components. PARTIAL: equality of the unquoter models with the independent decoding "
+                 "specification Spec/Decode.v on all raw texts (malformed escapes verbatim, '+' only in queries, path_safe) is the "
+                 "extracted predicate c06_pred checked on the implementation and model; URL-level read-back through build/with_*/'/'/"
+                 "joinpath is checked, not proved. Known finding F18 (query: U+FFFD)."),
+        "design_ref": "DESIGN.md section 7 C06",
     },
     "C07": {
         "text": ("Proved: split_url is the RFC 3986 Appendix B decomposition of the cleaned input whenever it succeeds, fails only with "
